@@ -88,6 +88,8 @@ pub enum Op {
     Restart(Cfg),
     /// drop WITHOUT quiescing the old worker, open immediately (S2)
     RaceRestart(Cfg),
+    /// like RaceRestart, but the store is dropped by a panic unwinding through its owner
+    PanicRestart(Cfg),
     /// wait_worker_idle() + drain_cache_evictable()
     WaitIdle,
     /// let the worker run until it is idle (harness-level quiesce)
@@ -135,6 +137,7 @@ impl Op {
             Op::Dump => "dump".into(),
             Op::Restart(c) => format!("restart(rec={:?},size={:?},rb={:?},ci={:?},cc={:?})", c.chunk_max_records, c.chunk_max_size, c.read_buffer_size, c.log_cache_max_items, c.log_cache_capacity),
             Op::RaceRestart(_) => "race_restart".into(),
+            Op::PanicRestart(_) => "panic_restart".into(),
             Op::WaitIdle => "wait_idle".into(),
             Op::Quiesce => "quiesce".into(),
             Op::Readers { n, rounds } => format!("readers({n}x{rounds})"),
